@@ -43,22 +43,34 @@ func (r *docRun) doTplPooled(o ops.Op) (extra string, err error) {
 	if len(o.S) > 1 && o.S[1] != "" {
 		name = o.S[1]
 	}
-	var nd *document.Document
-	if o.K == "tpldc" {
-		if _, err = te.LoadTemplateFromDocument(name, r.x.Doc); err != nil {
-			return "", err
-		}
-		nd, err = te.RenderTemplateToDocument(name, o.Data.TD())
-	} else {
-		src := ""
-		if len(o.S) > 0 {
-			src = o.S[0]
-		}
-		if _, err = te.LoadTemplate(name, src); err != nil {
-			return "", err
-		}
-		nd, err = te.RenderToDocument(name, o.Data.TD())
+	// the engine serves other documents as well: a call that does not come back is an outcome (ondemand.go)
+	type out struct {
+		nd  *document.Document
+		err error
 	}
+	cur, data := r.x.Doc, o.Data.TD()
+	src := ""
+	if len(o.S) > 0 {
+		src = o.S[0]
+	}
+	res, back := returns(func() out {
+		if o.K == "tpldc" {
+			if _, err := te.LoadTemplateFromDocument(name, cur); err != nil {
+				return out{nil, err}
+			}
+			nd, err := te.RenderTemplateToDocument(name, data)
+			return out{nd, err}
+		}
+		if _, err := te.LoadTemplate(name, src); err != nil {
+			return out{nil, err}
+		}
+		nd, err := te.RenderToDocument(name, data)
+		return out{nd, err}
+	})
+	if !back {
+		return "", errHang
+	}
+	nd, err := res.nd, res.err
 	if err != nil {
 		return "", err
 	}
@@ -107,10 +119,12 @@ func withSharedEngine(t *rapid.T, h []ops.Op) {
 //	                     2 current.Save(a path below a regular file)    3 current.AddImageFromFile(a path that does not exist)
 //	                     4 RenderToDocument of a template name the (own) engine does not know
 //	                     5 LoadTemplate of a source with unbalanced block statements
+//	                     6 RenderTemplateToDocument / 7 RenderToDocument of a name the run's POOLED engine does not know,
+//	                     8 GetTemplate of such a name on the pooled engine
 //
 // What an error path leaves behind in package-level state (a half-registered entry, a remembered "last" object)
 // would show in the OTHER documents of the case. The error text is part of the op's outcome.
-const nFailCalls = 6
+const nFailCalls = 9
 
 func (r *docRun) doFailCall(o ops.Op) (extra string, err error) {
 	x := r.x
@@ -128,6 +142,29 @@ func (r *docRun) doFailCall(o ops.Op) (extra string, err error) {
 		_, e = document.NewTemplateEngine().RenderToDocument("never-loaded", document.NewTemplateData())
 	case 5:
 		_, e = document.NewTemplateEngine().LoadTemplate("t", "{{#if a}}{{#each l}}{{/if}}")
+	case 6, 7, 8:
+		// the same failures on the engine that serves the other documents of the run
+		if r.conv == nil {
+			r.conv = newConvPool()
+		}
+		te := r.conv.engine()
+		which := ops.In(iArg(o, 0), nFailCalls)
+		var back bool
+		e, back = returns(func() error {
+			var err error
+			switch which {
+			case 6:
+				_, err = te.RenderTemplateToDocument("never-loaded", document.NewTemplateData())
+			case 7:
+				_, err = te.RenderToDocument("never-loaded", document.NewTemplateData())
+			default:
+				_, err = te.GetTemplate("never-loaded")
+			}
+			return err
+		})
+		if !back {
+			return "", errHang
+		}
 	}
 	// the text of an error may carry a path below the scratch directory of the run: only its presence is recorded
 	return fmt.Sprintf("failed=%v", e != nil), nil
